@@ -21,7 +21,7 @@ CHECKS = {
     "C03": ("Hypothesis-generated (dataset, subsetting options) pairs with data-relative option values; differential against the model's intersection-and-subset through the API, --list-* and csv",
             "Data.times/leadtimes/locations, --list-times/--list-dates/--list-locations, csv row descriptors and the valid cases under -obsrange equal the model; empty selections never yield numbers.",
             DS_NOTE + " -tod with whole-hour initialisation times only.", "DESIGN.md section 5, C03"),
-    "C04": ("metamorphic insertion of all-missing cases for all 70 metrics (Hypothesis) + re-encoding round trips through text/NetCDF files + enumerated reader cases",
+    "C04": ("metamorphic insertion of all-missing cases for all 70 metrics (Hypothesis) + re-encoding round trips through text/NetCDF files + enumerated reader cases + metamorphic climatology-quotient campaign (zeros planted vs climatology missing) + ensemble-member oracle",
             "Scores pooled over an inserted slice whose cases are missing in one input are bit-identical with and without it for every metric, the all-missing slice reports NaN, no metric raises; "
             "all missing encodings read back as NaN exactly at the missing cells and give identical scores.",
             "Scores are taken from verif.output.Standard._get_x_y (the code path of -type csv) on in-memory inputs for the insert oracle.", "DESIGN.md section 5, C04"),
@@ -41,24 +41,24 @@ CHECKS = {
     "C12": ("Hypothesis-generated (dataset, metric, axis, output options) cases run through the driver; differential of the printed table against scores computed through the API, the calendar model for row labels, and -f/-acc metamorphic relations",
             "Header, row count/order/labels and every printed cell (6 significant digits csv, 4 text) are compared with the computed scores for all 70 standard metrics and obsfcst; -f content equals stdout content; -acc equals running sums.",
             "The computed score is Standard._get_x_y on a Data object built from the same files (metric correctness is C05/C06/C08).", "DESIGN.md section 5, C12"),
-    "C13": ("grammar-based command-line generation (Hypothesis) against an independent model of the documented semantics; option-order and --config metamorphic relations; exhaustive grids for the vector syntax and date ranges; enumerated rejection classes",
+    "C13": ("grammar-based command-line generation (Hypothesis) against an independent model of the documented semantics; option-order and --config metamorphic relations; exhaustive grids for the vector syntax and date ranges; vector fuzzing; enumerated and generated rejection classes; -c/-C together",
             "Command lines with random option subsets/orders/values/spellings over generated files must print the table the model predicts; permuting options or moving them into --config files changes nothing; parse_numbers is decided on a full grid; 34 malformed invocations must end in an Error: exit.",
             "Defaults the help text leaves open are never relied on (-x explicit, -b with -r, one event for non-threshold axes); date ranges with positive steps.", "DESIGN.md section 5, C13"),
-    "C19": ("enumerated cross product (stratified in quick, complete in thorough) of metric/diagram x -x x output type x variants on hand-built dataset shapes + Hypothesis-generated datasets; outcome oracle with exception bucketing",
+    "C19": ("enumerated cross product (stratified in quick, complete in thorough) of metric/diagram x -x x output type x variants (lists, single threshold, single file) on hand-built dataset shapes + Hypothesis-generated datasets + every figure kind drawn with suitable arguments into a file; outcome oracle with exception bucketing",
             "Every combination must return normally (writing a non-empty file with -f) or stop with SystemExit(!=0) after an Error: line; unhandled exceptions are bucketed by type@innermost repository frame.",
             "Agg backend, low dpi; cartopy map backgrounds not installed.", "DESIGN.md section 5, C19"),
-    "C14": ("Hypothesis-generated datasets with a climatology input; differential against the dictionary model (anomalies at the same coordinates) + metamorphic relation '-c X' vs 'X as extra input' through files",
+    "C14": ("Hypothesis-generated datasets with a climatology input (optionally -obsrange); differential against the dictionary model (anomalies at the same coordinates) + metamorphic relation '-c X' vs 'X as extra input' through files, also with -fcst/-obs column overrides",
             "Anomaly values, dropped cases (missing climatology, non-finite quotient), untouched non-obs/fcst fields, and the absence of the climatology from inputs/legend/header are checked for -c and -C.",
             DS_NOTE, "DESIGN.md section 5, C14"),
     "C16": ("Hypothesis-generated datasets x 33 kinds of figure; the rendered matplotlib figure is dumped to plain data and compared, series by series, with the diagram's defining statistics computed by the independent model; partition oracles for binned diagrams",
             "Line/bar/scatter/rectangle coordinates of standard plots, maps, rank/impact views and 28 special diagrams equal the statistics of the common valid cases (exact where the definition is unambiguous, validity predicates where the code chooses thresholds/neighbourhoods/tie rules); "
             "one series per input in command-line order; per-bin counts/percentages account for every valid case, with probabilities exactly 0 and 1.",
             "Explicit -r/-q edges wherever accepted; matplotlib date numbers with the 1970 epoch; decorations (bands, rings, iso-lines, ideal lines) not judged; Agg backend.", "DESIGN.md section 5, C16"),
-    "C17": ("Hypothesis-generated subsets/values of 42 appearance options on five kinds of figure and five file formats; read-back of the figure's properties against the documented effect + metamorphic removal of one cosmetic option",
+    "C17": ("Hypothesis-generated subsets/values of 42 appearance options on 15 kinds of figure and five file formats + exhaustive kind x option x value enumeration (one option at a time) + line-style options on 17 kinds of plot; read-back of the figure's properties against the documented effect + metamorphic removal of one cosmetic option",
             "Every option present must show its documented effect in the figure left by verif.driver.run (titles, labels, limits, ticks, rotations, scales, legend, line styles with cycling, font sizes, grid, perfect-score line, aspect, size, margins, annotations) whatever accompanies it; "
             "dropping a purely cosmetic option must not change any other observable; the file has the right format, dpi and pixel size.",
             "Contradictory option pairs are not combined (listed in the evidence assumptions); each command runs with no pre-existing figure, as in a fresh process.", "DESIGN.md section 5, C17"),
-    "C18": ("model-based request histories (Hypothesis operation sequences + exhaustive sequences up to length 3) with invariants after every step: fresh-object differential, snapshots of returned arrays and of input data; repeated commands",
+    "C18": ("model-based request histories (Hypothesis rule-based state machine and operation sequences + exhaustive sequences up to length 3 + near-collision pairs differing in one request component + metric-computation histories) with invariants after every step: fresh-object differential, snapshots of returned arrays and of input data; repeated commands",
             "After every request of a generated history the result equals that of a freshly built dataset, earlier results and the inputs' arrays are unchanged; all 5655 sequences of length <=3 over a 12-request menu on 3 datasets are enumerated; commands repeated twice print the same output.",
             "In-memory inputs keep arrays as attributes (like verif.input.Text). PIT randomisation with x0/x1 is a listed finding and is generated in its own campaign.", "DESIGN.md section 5, C18"),
     "C05": ("Hypothesis-generated obs/fcst vectors with forced degenerate classes and generated datasets; differential against textbook formulas in exact rational arithmetic; perfect-score and bound metamorphic checks",
@@ -72,11 +72,11 @@ CHECKS = {
     "C15": ("Hypothesis-generated arrays (1-4 dims, every axis) against pure-Python statistics; generated datasets with irregular grids against a windowed-aggregate model of -T, via API and csv",
             "Each aggregator (14 named + quantile levels) along every axis equals the list statistic; under -T every obs/fcst/ensemble-member value entering a score equals the aggregate over the trailing window (x-h, x] of the same series.",
             "Lead times/times ascending within a file under -T; a missing value in a window makes every statistic but count (and change, which uses the end points) missing; float32 tolerance 2e-6.", "DESIGN.md section 5, C15"),
-    "C08": ("Hypothesis-generated probability/outcome vectors and generated probabilistic/ensemble datasets; differential against exact definitions on the model's valid cases; decomposition identity, complement relation and validity predicates for ensemble quantiles",
+    "C08": ("Hypothesis-generated probability/outcome vectors and generated probabilistic/ensemble datasets; differential against exact definitions on the model's valid cases; decomposition identity, binning-independent relations between the Brier terms, complement relation, repeated computation on one object and validity predicates for ensemble quantiles",
             "The Brier family on vectors (exact Fraction arithmetic, BS = REL - RES + UNC with one value per bin), 20 probabilistic metrics through the csv code path on datasets with stored or ensemble-derived thresholds/quantiles under all bin types, "
             "BS(event)=BS(complement), and range/monotonicity/symmetry of ensemble-derived quantiles.",
             "Reliability/resolution terms are not judged for probabilities within float noise of an interior decimal bin edge; ensemble-quantile interpolation is judged by validity only; float32 tolerance for ensemble-derived probabilities.", "DESIGN.md section 5, C08"),
-    "C07": ("exhaustive enumeration of value/threshold order relations + Hypothesis random floats against a plain-comparison oracle",
+    "C07": ("exhaustive enumeration of value/threshold order relations + Hypothesis random floats against a plain-comparison oracle; generated datasets with values planted on thresholds for the counting diagrams (-hist, freq, cond), quantilecoverage and ensemble-derived event probabilities",
             "Complete enumeration of the order relations a value can have to 1-3 thresholds for all eight bin types (scalar, array, "
             "apply_threshold, 2x2 cells, event probabilities, partition laws) plus random float cases; decides the property on the "
             "finite relation domain and samples it beyond.",
